@@ -48,6 +48,7 @@ type FuncContract struct {
 	Ghosts   []QVar // ghost parameters: arbitrary but fixed values the clauses may mention
 	Insts    map[string][]Expr // "callee.ghost" -> explicit instantiations at call sites in this function
 	OnReturn []*GhostSet       // ghost updates that take effect when the function returns
+	OnSpawn  []*GhostSet       // ghost updates that take effect at a `go f(...)` statement naming this function
 	LockAssumes []*Clause      // assumed right after each lock acquisition in this function (listed as assumptions)
 	NoChan   bool // promises (and is checked) not to send/receive on any channel; otherwise callers lose all channel counters
 	Trusted  bool // contract assumed, body not verified
@@ -121,7 +122,7 @@ var topKeywords = map[string]bool{"func": true, "extern": true, "pred": true, "g
 	"lemma": true, "axiom": true, "benign": true, "fn": true, "immutable": true, "constructors": true, "ghostgroup": true}
 var clauseKeywords = map[string]bool{"props": true, "arith": true, "requires": true, "ensures": true,
 	"modifies": true, "loop": true, "invariant": true, "decreases": true, "unroll": true, "trusted": true,
-	"maypanic": true, "guarantee": true, "guards": true, "ghostparam": true, "inst": true, "onreturn": true, "lockassume": true, "assume": true, "nochan": true}
+	"maypanic": true, "guarantee": true, "guards": true, "ghostparam": true, "inst": true, "onreturn": true, "onspawn": true, "lockassume": true, "assume": true, "nochan": true}
 
 type logicalLine struct {
 	kw   string
@@ -460,7 +461,7 @@ func (cs *Contracts) loadFile(path, pkgPath string) error {
 			}
 		case "arith":
 			curFunc.Arith = strings.TrimSpace(l.rest)
-		case "onreturn":
+		case "onreturn", "onspawn":
 			if curFunc == nil {
 				return fmt.Errorf("%s:%d: onreturn outside func", path, l.line)
 			}
@@ -484,7 +485,11 @@ func (cs *Contracts) loadFile(path, pkgPath string) error {
 				return fmt.Errorf("%s:%d: %v", path, l.line, err)
 			}
 			gs.Val = ve
-			curFunc.OnReturn = append(curFunc.OnReturn, gs)
+			if l.kw == "onspawn" {
+				curFunc.OnSpawn = append(curFunc.OnSpawn, gs)
+			} else {
+				curFunc.OnReturn = append(curFunc.OnReturn, gs)
+			}
 		case "inst":
 			// inst callee.ghost expr, expr
 			f := strings.SplitN(strings.TrimSpace(l.rest), " ", 2)
